@@ -189,6 +189,59 @@ func c04Scenarios(tier string) []*Scenario {
 			}
 		}
 	}
+	// a watcher that waits for Done() and reads Err() at once: what it reads is already the
+	// final answer (nil after a clean close)
+	for _, c := range causes {
+		if !c.clean {
+			continue
+		}
+		for _, revOrder := range []bool{false, true} {
+			for _, setName := range []string{"idle", "b"} {
+				c, revOrder, setName := c, revOrder, setName
+				cfg := TunCfg{Reverse: c.rev}
+				all := c04Workloads(true)
+				var wls []Workload
+				for _, i := range sets[setName] {
+					wls = append(wls, all[i])
+				}
+				scs = append(scs, &Scenario{
+					Name: fmt.Sprintf("c04/watch/%s/%s/%s/rev=%v", cfg, c.name, setName, revOrder), Prop: "C04",
+					Desc: fmt.Sprintf("tunnel %s (in flight: {%s}) is ended cleanly by %q at every quiescent point while another goroutine waits for Done() and reads Err() immediately", cfg, setName, c.name),
+					Opt:  Options{Level: "focus", Focus: []string{"close", "Close", "Err", "recvLoop", "Stop", "openReverseTunnel"}, Bound: 2, DevOK: oneFaultAnyOrder, RevOrder: revOrder},
+					Run: func(w *World) {
+						t := w.OpenTunnel(cfg)
+						if t.StartErr != nil {
+							return
+						}
+						watcher := w.Go("watch:done", true, func() {
+							w.WaitUntil("watch:done", func() bool { return chanDone(t) })
+							em, ec := errFields(t.Ch.Err())
+							w.Log(Event{Actor: "watch", Op: "err-at-done", Err: em, Code: ec})
+						})
+						w.StartFault(t, c.name)
+						w.Join(w.StartCallers(t, wls)...)
+						w.Join(watcher)
+						t.AwaitEnd()
+						t.Cancel()
+						w.Drain()
+					},
+					Check: func(w *World, x *Exec) []Violation {
+						vs := NoHang(x, "C04")
+						if x.Hang {
+							return vs
+						}
+						for _, e := range w.EventsOf("watch") {
+							if e.Op == "err-at-done" && !e.OK() && w.FaultStep(c.name) >= 0 && onlyThisFault(w, c.name) {
+								vs = append(vs, Violation{Prop: "C04", Rule: "err-nil-after-clean-close", Sig: "term:err-at-done-after-clean-close:" + c.name,
+									Detail: fmt.Sprintf("a goroutine that waited for Done() read Err() = %s(%s) although the tunnel was closed cleanly (%s)\n%s", e.Code, e.Err, c.name, w.Outcome())})
+							}
+						}
+						return vs
+					},
+				})
+			}
+		}
+	}
 	return scs
 }
 
